@@ -329,9 +329,9 @@ theorem c08_class_core (O : Oracles) (opts : DeserOpts) (c : ClassOpts) (fields 
     by simp [h1, vConstruct, hbind, hattrs]⟩
 
 
-/-- in the exact fragment no element is an `Optional[X]`: the element-position wrapper is the identity -/
-theorem c08_elemWrap_exact (f : FieldDecl) (s : PyVal) (h : exactF f = true) : elemWrap f s = s := by
-  cases f <;> simp [exactF] at h <;> simp [elemWrap, isOptional]
+/-- in the exact fragment no direct element is an `Optional[X]`: the element-position wrapper is the identity -/
+theorem c08_elemWrap_exact (f : FieldDecl) (s : PyVal) (h : isOptionalF f = false) : elemWrap f s = s := by
+  cases f <;> simp [isOptionalF] at h <;> simp [elemWrap, isOptional]
 
 /-! ### the main induction: fields, elements and nested classes -/
 
@@ -351,7 +351,7 @@ theorem c08_exactN (O : Oracles) (S : String → String → Bool)
     have hu : sz.uniq = false := by simpa using hf.1.1.2
     simp only [RefsFaithful] at hrf
     simp only [refDepth] at hd
-    simp only [emit, c08_elemWrap_exact f _ hf.2] at h
+    simp only [emit, c08_elemWrap_exact f _ (by simpa using hf.1.2)] at h
     obtain ⟨xs, rfl, hsz, hall⟩ := c08_jsV_arrOf_inv _ S sz (emit true f) (emit_shape true f) v h
     simp only [jsonDoc] at hj
     obtain ⟨ys, ys', hdd, hv, hl⟩ := c08_exact_items O opts f
@@ -368,7 +368,7 @@ theorem c08_exactN (O : Oracles) (S : String → String → Bool)
     subst hu
     simp only [RefsFaithful] at hrf
     simp only [refDepth] at hd
-    simp only [emit, c08_elemWrap_exact f _ hf.2] at h
+    simp only [emit, c08_elemWrap_exact f _ (by simpa using hf.1.2)] at h
     obtain ⟨xs, rfl, _, hall⟩ := c08_jsV_arrOf_inv _ S { uniq := false } (emit true f) (emit_shape true f) v h
     simp only [jsonDoc] at hj
     obtain ⟨ys, ys', hdd, hv, _⟩ := c08_exact_items O opts f
